@@ -649,7 +649,7 @@ func TestC24(t *testing.T) {
 	cases := []triple{{"a", "b", "c"}, {"a_b", "c", "d"}, {"a", "b_c", "d"}, {"/a", "b", "c"}, {"//", "b", "c"}, {"", "b", "c"}, {"a", "", "c"},
 		{"a", "b", ""}, {"", "", ""}, {"a/b", "c", "d"}, {".", "b", "c"}, {"..", "b", "c"}, {"a", ".", "c"}, {"a", "..", "c"}, {"...", "b", "c"},
 		{"a", "b", "c_d"}, {"_", "b", "c"}, {"a", "/", "c"}, {"a.b", "c.d", "e"}, {"a*", "b?", "c"}}
-	nn := nm.N(1200, 12000)
+	nn := nm.N(800, 12000)
 	for i := 0; i < nn; i++ {
 		tr := triple{gen(), gen(), gen()}
 		if nm.Rng.Intn(2) == 0 { // mostly valid: plain identifiers
@@ -691,7 +691,7 @@ func TestC24(t *testing.T) {
 	}
 	pcases := [][]string{{}, {""}, {"", ""}, {"/deploy", "a", "b"}, {"/deploy", "", "", ""}, {"/deploy", ".", "e"}, {"/deploy", "..", "e"}, {"/deploy", "a/b", "c"},
 		{"/events/", "0000000000000001"}, {"a", "../../b"}, {"..", ".."}, {"/..", "a"}, {".", "."}, {"a/", "/b"}, {"//"}, {"/"}, {"./a/./b/.."}, {"a/..", ".."}}
-	pn := pp.N(700, 8000)
+	pn := pp.N(450, 8000)
 	for i := 0; i < pn; i++ {
 		k := 1 + pp.Rng.Intn(4)
 		var el []string
